@@ -12,10 +12,12 @@
 using namespace vrec;
 using namespace c17;
 
+static TmpDir* g_tmpdir = 0;
 static void die(const std::string& msg)
 {
 	fprintf(stderr, "VREC-FAIL: %s\n", msg.c_str());
 	fflush(stderr);
+	if (g_tmpdir) rmTree(g_tmpdir->path);
 	_exit(3);
 }
 
@@ -342,12 +344,148 @@ struct Exec
 	}
 };
 
+// ---- mode 1: large contents (1 MiB .. 16 MiB), validated by spec/Trace_FileModelBig.tla on run-length coded contents ----
+static std::string genBig(Rng& rng, size_t n, bool text)
+{
+	std::string s;
+	s.reserve(n);
+	int prev = -1;
+	while (s.size() < n)
+	{
+		size_t left = n - s.size();
+		size_t k = rng.chance(25) ? (size_t)rng.range(1, 3) : rng.chance(50) ? (size_t)rng.range(1, 70000) : (size_t)rng.range(1, 4000000);
+		if (k > left) k = left;
+		int b;
+		do b = text ? (rng.chance(10) ? 10 : rng.chance(5) ? 13 : rng.range(32, 255)) : (rng.chance(15) ? 0 : rng.chance(10) ? 255 : rng.below(256));
+		while (b == prev);
+		prev = b;
+		s.append(k, (char)b);
+	}
+	return s;
+}
+
+static size_t bigSize(Rng& rng, size_t cap)
+{
+	static const size_t EDGES[] = { 1u << 20, (1u << 20) + 1, 3u << 20, (4u << 20) - 1, 4u << 20, 5000000, 8u << 20, (16u << 20) - 65536, 16u << 20 };
+	size_t n = rng.chance(60) ? EDGES[rng.below(9)] : (size_t)rng.range(1 << 20, 16 << 20);
+	return n > cap ? cap - (size_t)rng.below(70000) : n;
+}
+
+static void bigExecution(Rng& rng, Log& log, const std::string& dir)
+{
+	Paths P(dir);
+	log.line("{\"op\":\"reset\"}");
+	size_t total = 0; // bytes currently on disk in this execution (kept below ~40 MiB)
+	int steps = rng.range(6, 14);
+	for (int i = 0; i < steps; i++)
+	{
+		int r = rng.below(100);
+		std::string x = rng.chance(50) ? "p" : "q";
+		std::string path = P.of(x), b;
+		if (i == 0 || r < 18)
+		{
+			std::string d = genBig(rng, bigSize(rng, 16u << 20), false);
+			if (!File(toStr(path)).put(toBytes(d))) die("put returned false");
+			log.line("{\"op\":\"bput\"," + ks("x", x) + ",\"z\":" + rle(d) + "}");
+		}
+		else if (r < 26)
+		{
+			std::string d = genBig(rng, (size_t)rng.range(1, 3 << 20), true);
+			struct stat st;
+			if (stat(path.c_str(), &st) == 0 && (size_t)st.st_size + d.size() > (20u << 20)) continue;
+			if (!TextFile(toStr(path)).append(toStr(d))) die("append returned false");
+			log.line("{\"op\":\"bappend\"," + ks("x", x) + ",\"z\":" + rle(d) + "}");
+		}
+		else if (r < 34)
+		{
+			int np = rng.range(1, 3);
+			std::string zs = "[";
+			File f(toStr(path), File::WRITE);
+			if (!f) die("cannot open for writing");
+			for (int k = 0; k < np; k++)
+			{
+				std::string d = genBig(rng, (size_t)rng.range(1, 5 << 20), false);
+				if (rng.chance(50)) { if (f.write(d.data(), (int)d.size()) != (int)d.size()) die("write returned a short count"); }
+				else f << toBytes(d);
+				zs += (k ? "," : "") + rle(d);
+			}
+			f.close();
+			log.line("{\"op\":\"bwrite\"," + ks("x", x) + ",\"zs\":" + zs + "]}");
+		}
+		else if (r < 50)
+		{
+			bool mv = rng.chance(40);
+			std::string y = x == "p" ? (rng.chance(35) ? "d" : "q") : "p";
+			if (!posixExists(path)) continue;
+			bool ok;
+			if (mv) ok = rng.chance(50) ? Directory::move(toStr(path), toStr(P.of(y))) : File(toStr(path)).move(toStr(P.of(y)));
+			else ok = rng.chance(50) ? Directory::copy(toStr(path), toStr(P.of(y))) : File(toStr(path)).copy(toStr(P.of(y)));
+			log.line(std::string("{\"op\":\"") + (mv ? "bmove" : "bcopy") + "\"," + ks("x", x) + "," + ks("y", y) + ",\"r\":" + (ok ? "true" : "false") + "}");
+			std::string land = y == "d" ? "r" : y;
+			bool ex = posixRead(P.of(land), b);
+			log.line("{\"op\":\"bdisk\"," + ks("x", land) + ",\"ex\":" + (ex ? "true" : "false") + ",\"r\":" + rle(b) + "}");
+		}
+		else if (r < 54)
+		{
+			if (!posixExists(path)) continue;
+			if (!File(toStr(path)).remove()) die("remove returned false");
+			log.line("{\"op\":\"bremove\"," + ks("x", x) + "}");
+		}
+		else
+		{
+			std::string xo = rng.chance(15) ? "r" : x;
+			std::string po = P.of(xo);
+			bool ex = posixRead(po, b);
+			int k = rng.below(ex ? 6 : 2);
+			if (k == 0) log.line("{\"op\":\"bdisk\"," + ks("x", xo) + ",\"ex\":" + (ex ? "true" : "false") + ",\"r\":" + rle(b) + "}");
+			else if (k == 1) log.line("{\"op\":\"bsize\"," + ks("x", xo) + "," + kv("r", (long long)File(toStr(po)).size()) + "}");
+			else if (k == 2) log.line("{\"op\":\"bcontent\"," + ks("x", xo) + ",\"r\":" + rle(fromBytes(File(toStr(po)).content())) + "}");
+			else if (k == 3)
+			{
+				long n = rng.chance(40) ? (long)b.size() + rng.range(-1, 2) : rng.chance(50) ? rng.range(65535, 65537) : (long)rng.below((int)b.size() + 1);
+				if (n < 0) n = 0;
+				log.line("{\"op\":\"bfirst\"," + ks("x", xo) + "," + kv("n", n) + ",\"r\":" + rle(fromBytes(File(toStr(po)).firstBytes((int)n))) + "}");
+			}
+			else if (k == 4)
+			{
+				File f(toStr(po), File::READ);
+				std::string all;
+				int piece = rng.chance(50) ? 65536 : rng.range(100000, 3000000);
+				std::string buf((size_t)piece, '\0');
+				for (;;)
+				{
+					int got = f.read(&buf[0], piece);
+					if (got < 0 || got > piece) die("read returned " + std::to_string(got));
+					all.append(buf.data(), (size_t)got);
+					if (got < piece) break;
+				}
+				log.line("{\"op\":\"bread\"," + ks("x", xo) + ",\"r\":" + rle(all) + "}");
+			}
+			else
+			{
+				// text() of a NUL-free content without byte-order mark is the content
+				bool bom = b.size() >= 2 && (((unsigned char)b[0] == 0xff && (unsigned char)b[1] == 0xfe) || ((unsigned char)b[0] == 0xfe && (unsigned char)b[1] == 0xff) ||
+				                             ((unsigned char)b[0] == 0xef && (unsigned char)b[1] == 0xbb));
+				if (bom || !nulFree(b)) continue;
+				log.line("{\"op\":\"btext\"," + ks("x", xo) + ",\"r\":" + rle(fromStr(TextFile(toStr(po)).text())) + "}");
+			}
+		}
+		(void)total;
+	}
+}
+
 int main(int argc, char** argv)
 {
 	Args args(argc, argv);
 	Rng rng(args.seed);
 	Log log(args.out);
 	TmpDir tmp("c17");
+	g_tmpdir = &tmp;
+	if (args.mode == 1)
+	{
+		while (log.lines < args.events) bigExecution(rng, log, tmp.sub());
+		return 0;
+	}
 	while (log.lines < args.events)
 	{
 		int sc = rng.below(100);
